@@ -861,6 +861,30 @@ def to_isar_variants(schema, rng, split=None):
             forms.add('message')
         body.append('<%s name="%s">%s\n</%s>' % (tag, xml_name, ''.join('\n    ' + x for x in out), tag))
     patch.extend(late_rules)
+    # a 'type' rule and the array rule of the same field commute: put the type rule last half of the time
+    ARRAY_RULES = ('greedy', 'dynamic', 'limited', 'static')
+    out_patch, pending = [], {}
+    for i, line in enumerate(patch):
+        w_ = line.split()
+        key = (w_[0], w_[2]) if len(w_) >= 3 else None
+        if len(w_) == 4 and w_[1] == 'type' and rng.random() < 0.5 and any(
+                x.split()[0] == w_[0] and len(x.split()) >= 3 and x.split()[1] in ARRAY_RULES and x.split()[2] == w_[2]
+                for x in patch[i + 1:]):
+            pending[key] = line
+            forms.add('patch-type-after-array-rule')
+            continue
+        out_patch.append(line)
+        if len(w_) >= 3 and w_[1] in ARRAY_RULES and key in pending:
+            out_patch.append(pending.pop(key))
+    patch = out_patch + list(pending.values())
+    # isar definitions may come in any order: the constants are written in reverse half of the time (not when the
+    # rendering is cut into two files: an included file must be complete in itself)
+    cidx = [i for i, b in enumerate(body) if b.lstrip().startswith('<constant')]
+    if split is None and len(cidx) > 1 and rng.random() < 0.5:
+        forms.add('constants-reversed')
+        vals = [body[i] for i in cidx][::-1]
+        for i, v in zip(cidx, vals):
+            body[i] = v
     if rng.random() < 0.5 and len(set(x.split()[0] for x in patch)) > 1:
         # a patch file need not keep one message's rules together: interleave the groups, keeping each group's order
         forms.add('patch-rules-interleaved')
